@@ -240,3 +240,239 @@ def negotiate(conf, order=("client", "server")):
                          mine + "_comp": t.local_compression, theirs + "_comp": t.remote_compression}
         events.append(ev)
     return events
+
+
+# =========================================================================== C41  HostKeys
+
+HK_HOSTTEXT = {"h1": "alpha.example.com", "h2": "192.168.7.21", "h3": "[gate.example.org]:2222", "h4": "beta",
+               "h5": "xn--bcher-kva.example"}
+HK_TYPES = {"rsa": "ssh-rsa", "ed": "ssh-ed25519", "ec": "ecdsa-sha2-nistp256", "ec3": "ecdsa-sha2-nistp384"}
+_HK_KEYS = {}
+
+
+def hk_key(kt, kid):
+    """(PKey, base64 text) of the public key with abstract type kt and identity kid (generated once)"""
+    import paramiko
+    from paramiko.message import Message
+    if (kt, kid) not in _HK_KEYS:
+        real = HK_TYPES[kt]
+        if kt == "rsa":
+            k = paramiko.RSAKey.generate(1024)
+            pub = paramiko.RSAKey(data=k.asbytes())
+        elif kt == "ed":
+            from cryptography.hazmat.primitives.asymmetric.ed25519 import Ed25519PrivateKey
+            from cryptography.hazmat.primitives import serialization
+            raw = Ed25519PrivateKey.generate().public_key().public_bytes(serialization.Encoding.Raw,
+                                                                         serialization.PublicFormat.Raw)
+            m = Message()
+            m.add_string(real)
+            m.add_string(raw)
+            pub = paramiko.Ed25519Key(data=m.asbytes())
+        else:
+            k = paramiko.ECDSAKey.generate(bits=256 if kt == "ec" else 384)
+            pub = paramiko.ECDSAKey(data=k.asbytes())
+        _HK_KEYS[(kt, kid)] = (pub, pub.get_base64())
+    return _HK_KEYS[(kt, kid)]
+
+
+def hk_name_text(name):
+    """plain host text, or the hashed form |1|salt|HMAC-SHA1(salt, host) computed here with hashlib/hmac"""
+    import base64
+    import hashlib
+    import hmac
+    host = HK_HOSTTEXT.get(name["h"], name["h"])
+    if not name["salt"]:
+        return host
+    salt = hashlib.sha1(b"salt-%d" % name["salt"]).digest()
+    mac = hmac.new(salt, host.encode(), hashlib.sha1).digest()
+    return "|1|%s|%s" % (base64.b64encode(salt).decode(), base64.b64encode(mac).decode())
+
+
+def hk_render(lines, rnd=None, noise=False):
+    """known_hosts text for a list of {names: [{h, salt}], key: {kt, id}}"""
+    out = []
+    for ln in lines:
+        key, b64 = hk_key(ln["key"]["kt"], ln["key"]["id"])
+        row = "%s %s %s" % (",".join(hk_name_text(n) for n in ln["names"]), HK_TYPES[ln["key"]["kt"]], b64)
+        if noise and rnd is not None:
+            r = rnd.random()
+            if r < 0.12:
+                out.append("# a comment line")
+            elif r < 0.20:
+                out.append("")
+            elif r < 0.26:
+                out.append("orphan.example.com ssh-rsa")                       # too few fields: skipped
+            elif r < 0.32:
+                out.append("old.example.com ssh-dss AAAAB3NzaC1kc3MAAACBAJ8=")    # key type paramiko does not know: skipped
+            r = rnd.random()
+            if r < 0.15:
+                row += " someone@somewhere"
+            elif r < 0.25:
+                row = row.replace(" ", "\t")
+            elif r < 0.30:
+                row = "  " + row + "  "
+        out.append(row)
+    return "\n".join(out) + "\n"
+
+
+class HKWorld:
+    """one universe (hosts, names, keys) with the dictionaries that map the implementation's output back to ids"""
+
+    def __init__(self, hosts, ktypes, keyids, salts):
+        self.hosts, self.ktypes = list(hosts), list(ktypes)
+        self.keys = [{"kt": t, "id": i} for t in ktypes for i in keyids]
+        self.names = [{"h": h, "salt": s} for h in hosts for s in [0] + list(salts)]
+        self.name_of_text = {hk_name_text(n): n for n in self.names}
+        self.key_of_b64 = {hk_key(k["kt"], k["id"])[1]: k for k in self.keys}
+        self.kt_of_real = {HK_TYPES[t]: t for t in ktypes}
+
+    def key_id(self, pkey):
+        return self.key_of_b64.get(pkey.get_base64(), {"kt": "?", "id": -1})
+
+    def observe(self, hk, tmpdir):
+        import os
+        from paramiko.hostkeys import HostKeys
+        path = os.path.join(tmpdir, "saved")
+        hk.save(path)
+        saved = []
+        with open(path) as f:
+            for line in f.read().splitlines():
+                fields = line.split(" ")                      # to_line(): names, type, base64 separated by one space
+                names = [self.name_of_text.get(t, {"h": "?" + t, "salt": -1}) for t in fields[0].split(",")]
+                saved.append({"names": names, "key": self.key_of_b64.get(fields[2] if len(fields) > 2 else "", {"kt": "?", "id": -1})})
+        fresh = HostKeys(path)
+        lookup, reload_, check = [], [], []
+        for h in self.hosts:
+            text = HK_HOSTTEXT.get(h, h)
+            for store, sink in ((hk, lookup), (fresh, reload_)):
+                r = store.lookup(text)
+                if r is None:
+                    sink.append({"found": False, "kts": [], "map": []})
+                else:
+                    kts = list(r.keys())
+                    sink.append({"found": True, "kts": [self.kt_of_real.get(t, t) for t in kts],
+                                 "map": [self.key_id(r[t]) for t in dict.fromkeys(kts)]})
+            for k in self.keys:
+                if hk.check(text, hk_key(k["kt"], k["id"])[0]):
+                    check.append({"host": h, "key": k})
+        return {"saved": saved, "hostlist": [self.name_of_text.get(t, {"h": "?" + t, "salt": -1}) for t in hk.keys()],
+                "lookup": lookup, "check": check, "reload": [{"found": x["found"], "map": x["map"]} for x in reload_]}
+
+
+NOKEY = {"kt": "", "id": 0}
+
+
+def hk_run(world, ops, tmpdir, rnd=None, noise=False):
+    """execute a history on a fresh HostKeys; ops: {op: load|reload|add|delete, file|host,key}"""
+    import os
+    from paramiko.hostkeys import HostKeys
+    hk = HostKeys()
+    events, lastpath = [], None
+    for n, op in enumerate(ops):
+        ev = {"op": op["op"], "file": op.get("file", []), "host": op.get("host", ""), "key": op.get("key", NOKEY)}
+        if op["op"] == "load":
+            lastpath = os.path.join(tmpdir, "in%d" % n)
+            with open(lastpath, "w") as f:
+                f.write(hk_render(op["file"], rnd, noise))
+            hk.load(lastpath)
+        elif op["op"] == "reload":
+            hk.load(lastpath)
+        elif op["op"] == "add":
+            k = op["key"]
+            hk.add(HK_HOSTTEXT.get(op["host"], op["host"]), HK_TYPES[k["kt"]], hk_key(k["kt"], k["id"])[0])
+        elif op["op"] == "delete":
+            try:
+                del hk[HK_HOSTTEXT.get(op["host"], op["host"])]
+            except KeyError:
+                pass
+        ev["obs"] = world.observe(hk, tmpdir)
+        events.append(ev)
+    return events
+
+
+# =========================================================================== C40  SshConfig
+
+CFG_SPELLING = {"hostname": "HostName", "user": "User", "port": "Port", "identityfile": "IdentityFile",
+                "proxycommand": "ProxyCommand", "controlpath": "ControlPath", "proxyjump": "ProxyJump",
+                "compression": "Compression", "forwardagent": "ForwardAgent", "serveraliveinterval": "ServerAliveInterval",
+                "stricthostkeychecking": "StrictHostKeyChecking"}
+
+
+def cfg_pattern_text(pt):
+    return ("!" if pt["neg"] else "") + "".join(pt["p"])
+
+
+def cfg_render(cfg, rnd=None):
+    """ssh_config text for a block structure (SshConfig.tla).  With rnd: spelling/spacing variants that the
+    file format allows (key case, `=` separator, indentation, blank and comment lines, quoted values)."""
+    out = []
+    for b in cfg:
+        if not b["implicit"]:
+            if rnd is not None and rnd.random() < 0.3:
+                out.append(rnd.choice(["", "# ---- next block", "   "]))
+            if b["kind"] == "host":
+                word = "Host" if rnd is None else rnd.choice(["Host", "Host", "host", "HOST"])
+                out.append(word + " " + " ".join(cfg_pattern_text(p) for p in b["pats"]))
+            else:
+                parts = []
+                for c in b["crit"]:
+                    parts.append(("!" if c["neg"] else "") + c["type"])
+                    if c["type"] not in ("all", "final"):
+                        parts.append(",".join(cfg_pattern_text(p) for p in c["pats"]))
+                word = "Match" if rnd is None else rnd.choice(["Match", "Match", "match"])
+                out.append(word + " " + " ".join(parts))
+        for ln in b["body"]:
+            key = CFG_SPELLING.get(ln["k"], ln["k"])
+            val = "".join(ln["v"])
+            sep, ind = " ", "    "
+            if rnd is not None:
+                r = rnd.random()
+                key = key.lower() if r < 0.2 else key.upper() if r < 0.3 else key
+                sep = rnd.choice([" ", " ", " ", "=", " = ", "\t", "  "])
+                ind = rnd.choice(["    ", "  ", "\t", "", " "])
+                if not ln["none"] and '"' not in val and rnd.random() < 0.15:
+                    val = '"%s"' % val
+                if ln["none"]:
+                    val = rnd.choice(["none", "none", "None", "NONE"])
+                if rnd.random() < 0.1:
+                    out.append(ind + "# " + key)
+            out.append(ind + key + sep + val)
+    return "\n".join(out) + "\n"
+
+
+def cfg_env():
+    """what the documented tokens stand for on this machine"""
+    import getpass
+    import os
+    import socket
+    return {"luser": list(getpass.getuser()), "home": list(os.path.expanduser("~")),
+            "lhost": list(socket.gethostname().split(".")[0]), "fqdn": list(socket.getfqdn())}
+
+
+def cfg_observe(text, hosts):
+    """parse with the real SSHConfig; get_hostnames() and lookup() for every host"""
+    from paramiko.config import SSHConfig
+    conf = SSHConfig.from_text(text)
+    gh = {"raised": "", "pats": []}
+    try:
+        gh["pats"] = sorted(list(p) for p in conf.get_hostnames())
+    except Exception as e:                                   # noqa: the class is the observation
+        gh["raised"] = type(e).__name__
+    lookups = []
+    for h in hosts:
+        q = {"host": list(h), "raised": "", "opts": []}
+        try:
+            d = conf.lookup("".join(h))
+        except Exception as e:                               # noqa
+            q["raised"] = type(e).__name__
+        else:
+            for k, v in d.items():
+                if v is None:
+                    vals = [["<none>"]]
+                elif isinstance(v, list):
+                    vals = [list(x) for x in v]
+                else:
+                    vals = [list(v)]
+                q["opts"].append({"k": k, "vals": vals})
+        lookups.append(q)
+    return gh, lookups
